@@ -376,7 +376,12 @@ def _f_geogrid():
     GeoGrid.RegularGrid(tseq, (ax1, ax2), silence_level=3).lat_sequence()
     Grid.RegularGrid(tseq, [ax1, ax2], silence_level=3).sequence(1)
     GeoGrid.coord_sequence_from_rect_grid(ax1, ax2), Grid.coord_sequence_from_rect_grid([ax1, ax2])
-    return {"lat": lat, "lon": lon, "time_seq": tseq, "region": region, "lon_seq": lon360, "axis1": ax1, "axis2": ax2}
+    from pyunicorn.core import GeoNetwork
+    la, lo = V(np.array([0., 30., -45.])), V(np.array([10., -170., 90.]))
+    pos = V(np.array(GeoNetwork.latlon2cartesian(la, lo)))
+    GeoNetwork.cartesian2latlon(pos)
+    return {"lat": lat, "lon": lon, "time_seq": tseq, "region": region, "lon_seq": lon360, "axis1": ax1, "axis2": ax2,
+            "lat_deg": la, "lon_deg": lo, "positions": pos}
 
 
 def _f_interacting():
